@@ -23,7 +23,8 @@ def gen_cases(seed, tier, n):
     out = []
     profs = ["comm_overlap", "comm_overlap", "comm_overlap", "free_overlap", "fifo_tiny", "free_overlap_s0"]
     for i in range(n):
-        c = tracegen.gen_case(seed, i, tracegen.PROFILES[profs[i % len(profs)]])
+        # every twelfth case: ranks with vocabularies of their own, more than 127 symbols in the job (ids beyond the int8 range)
+        c = tracegen.gen_case(seed, i, tracegen.PROFILES["comm_overlap_bigvocab" if i % 12 == 5 else profs[i % len(profs)]])
         c["params"] = {}
         if i % 3 == 1:
             tracegen.relabel_ranks(c)      # a subset of a job: rank ids are not 0..n-1, and not listed in order
